@@ -596,3 +596,61 @@ fn c04_cipher_rtcp_iv_spec() {
     unsafe { assert!(RTCP_IV == want); }
     assert!(p[..8] == raw[..8]);
 }
+
+// ---- GCM profile: protect layout + round trip (aes-gcm substitute)
+/// protect (AEAD_AES_128_GCM): output == header image || AEAD-seal(body) with AAD = header image,
+/// nonce = RFC 7714 8.1 (seq, estimated roc); unprotect on a second context returns the packet
+fn gcm_roundtrip_obligation<const PL: usize, const N: usize>() {
+    let key = [7u8; 16];
+    let mut tx = ctx_gcm(&key, &key);
+    let mut rx = ctx_gcm(&key, &key);
+    rx.ssrc = tx.ssrc; rx.rtp_keys.salt = tx.rtp_keys.salt.clone();
+    rx.rollover_counter = tx.rollover_counter; rx.last_sequence = tx.last_sequence;
+    kani::assume(well_formed(&tx) && well_formed(&rx));
+    let old = crypto_state(&tx);
+    let pl: [u8; PL] = kani::any();
+    let mut h = RtpHeader::new(kani::any::<u8>() & 0x7f, kani::any(), kani::any(), kani::any());
+    h.marker = kani::any();
+    let seq = h.sequence_number;
+    let pkt = RtpPacket { header: h.clone(), payload: static_bytes_of(pl), padding_len: 0 };
+    let mut out = [0u8; N];
+    assert!(tx.protected_rtp_len(&pkt) == N && N == 12 + PL + 16);
+    tx.protect(&pkt, &mut out[..]).unwrap();
+    // layout: header image, then seal(payload) under the RFC nonce with the header as AAD
+    let roc = post_estimate_roc_value(old.0, old.1, seq);
+    let mut hdr = [0u8; 12];
+    pkt.header.write_to(false, &mut hdr[..]);
+    assert!(out[..12] == hdr[..]);
+    let nonce = spec_iv_gcm_rtp(&tx.rtp_keys.salt, tx.ssrc, roc, seq);
+    let ciph = Aes128Gcm::new_from_slice(&key).unwrap();
+    let mut body = pl;
+    let tag = ciph.encrypt_in_place_detached(Nonce::from_slice(&nonce), &hdr, &mut body[..]).unwrap();
+    assert!(out[12..12 + PL] == body[..] && out[12 + PL..] == tag[..]);
+    let sp = SrtpPacket { header: h, body: BytesMut::from(&out[12..]), has_padding: false };
+    let got = rx.unprotect(sp).unwrap();
+    assert!(got.header == pkt.header && got.payload[..] == pl[..] && got.padding_len == 0);
+    assert!(rx.rollover_counter == tx.rollover_counter && rx.last_sequence == tx.last_sequence);
+    core::mem::forget(got); core::mem::forget(pkt);
+}
+#[kani::proof]
+#[kani::unwind(30)]
+fn c04_gcm_protect_layout_and_roundtrip_p2() { gcm_roundtrip_obligation::<2, 30>(); }
+
+/// SRTCP GCM: protect_rtcp then unprotect_rtcp is the identity; index word (E bit set) is the trailer
+#[kani::proof]
+#[kani::unwind(30)]
+fn c04_rtcp_gcm_roundtrip_12() {
+    let key = [7u8; 16];
+    let mut tx = ctx_gcm(&key, &key);
+    let mut rx = ctx_gcm(&key, &key);
+    rx.ssrc = tx.ssrc; rx.rtcp_keys.salt = tx.rtcp_keys.salt.clone();
+    kani::assume(tx.rtcp_index < 0x7FFF_FFFE);
+    let i0 = tx.rtcp_index;
+    let raw: [u8; 12] = kani::any();
+    let mut p = raw.to_vec();
+    tx.protect_rtcp(&mut p).unwrap();
+    assert!(p.len() == 12 + 16 + 4 && p[..8] == raw[..8]);
+    assert!(p[28..32] == ((i0 + 1) | 0x8000_0000).to_be_bytes() && tx.rtcp_index == i0 + 1);
+    rx.unprotect_rtcp(&mut p).unwrap();
+    assert!(p[..] == raw[..]);
+}
